@@ -27,6 +27,7 @@ import (
 
 	"github.com/EliCDavis/polyform/modeling"
 	"github.com/EliCDavis/polyform/modeling/primitives"
+	"github.com/EliCDavis/polyform/nodes"
 	"github.com/EliCDavis/vector/vector2"
 	"polyverif/internal/run"
 )
@@ -43,12 +44,18 @@ type prim struct {
 	W      float64 `json:"width,omitempty"`
 	D      float64 `json:"depth,omitempty"`
 	Capped bool    `json:"capped,omitempty"`
-	UV     string  `json:"uv"` // none | nil-struct | default | mask:<bits>
+	Node   bool    `json:"via_node,omitempty"` // built through the node entry point (UvSphereNodeData{…}.Process() etc.), round 9 C18-N
+	UV     string  `json:"uv"`                 // none | nil-struct | default | mask:<bits>
 	uvMask int
 	uvSeed int64
 }
 
 func (p prim) String() string {
+	if p.Node {
+		q := p
+		q.Node = false
+		return q.String() + " built through its node (" + p.site() + ")"
+	}
 	switch p.Kind {
 	case "cylinder":
 		return fmt.Sprintf("primitives.Cylinder{Sides:%d, Height:%v, Radius:%v, UVs:%s}.ToMesh()", p.Sides, p.H, p.R, p.UV)
@@ -66,6 +73,18 @@ func (p prim) String() string {
 }
 
 func (p prim) site() string {
+	if p.Node {
+		switch p.Kind {
+		case "cylinder":
+			return "primitives.CylinderNodeData.Process"
+		case "cube-quads":
+			return "primitives.CubeNodeData.Process"
+		case "hemisphere":
+			return "primitives.HemisphereNodeData.Process"
+		default:
+			return "primitives.UvSphereNodeData.Process"
+		}
+	}
 	switch p.Kind {
 	case "cylinder":
 		return "primitives.Cylinder.ToMesh"
@@ -95,7 +114,44 @@ func randCircleUV(r *rand.Rand) *primitives.CircleUVs {
 }
 
 // build calls the polyform constructor for p.
+func nout[T any](v T) nodes.NodeOutput[T] { return nodes.Value(v).Out() }
+
+// nodeOK: the node wrappers expose the solid without UV options (and no welded box).
+func nodeOK(p prim) bool {
+	switch p.Kind {
+	case "sphere", "sphere-unwelded":
+		return p.Rows >= 2 && p.Cols >= 3 // the node clamps smaller counts
+	case "hemisphere":
+		return true
+	case "cylinder", "cube-quads":
+		return true // the node has no UV port: fill() drops the UV option when it chooses the node
+	}
+	return false
+}
+
+func buildNode(p prim) modeling.Mesh {
+	var m modeling.Mesh
+	var err error
+	switch p.Kind {
+	case "sphere", "sphere-unwelded":
+		m, err = primitives.UvSphereNodeData{Radius: nout(p.R), Rows: nout(p.Rows), Columns: nout(p.Cols), Weld: nout(p.Kind == "sphere")}.Process()
+	case "hemisphere":
+		m, err = primitives.HemisphereNodeData{Radius: nout(p.R), Rows: nout(p.Rows), Columns: nout(p.Cols), Capped: nout(p.Capped)}.Process()
+	case "cylinder":
+		m, err = primitives.CylinderNodeData{Sides: nout(p.Sides), Height: nout(p.H), Radius: nout(p.R)}.Process()
+	default:
+		m, err = primitives.CubeNodeData{Width: nout(p.W), Height: nout(p.H), Depth: nout(p.D)}.Process()
+	}
+	if err != nil {
+		panic(err)
+	}
+	return m
+}
+
 func build(p prim) modeling.Mesh {
+	if p.Node {
+		return buildNode(p)
+	}
 	r := rand.New(rand.NewSource(p.uvSeed))
 	switch p.Kind {
 	case "sphere":
@@ -557,6 +613,12 @@ func fill(r *rand.Rand, cb combo) prim {
 		p.W, p.H, p.D = d[0], d[1], d[2]
 		setMask(63)
 	}
+	if nodeOK(p) && r.Intn(4) == 0 {
+		p.Node = true
+		if p.Kind == "cylinder" || p.Kind == "cube-quads" {
+			p.UV, p.uvMask = "none", 0
+		}
+	}
 	return p
 }
 
@@ -580,6 +642,10 @@ func finish(res *run.Result, p prim, ob *observed) {
 	}
 	res.Sample = map[string]any{"call": p.String(), "observed": ob}
 	res.SetAdd("kinds", p.Kind)
+	if p.Node {
+		res.Count("solids_built_through_their_node", 1)
+		res.SetAdd("node_entry_points", p.site())
+	}
 	res.SetAdd("uv_options", p.Kind+":"+uvClass(p))
 	if ob != nil && ob.Tris >= 4 {
 		res.Nontrivial = true
@@ -1006,7 +1072,7 @@ func Spec() *run.Spec {
 		},
 		MinNontrivial: map[string]int{"quick": 750, "thorough": 800},
 		MinObserved: map[string]int64{"kinds": 6, "meshes_with_normals_checked": 300, "refinement_steps": 100, "meshes_with_a_count_of_150_or_more": 5, "uv_options": 10, "uv_masks": 140,
-			"call_sequences": 300, "out_of_domain_calls_before_a_judged_build": 150, "out_of_domain_kinds": 12, "primitives_built_after_an_earlier_instance_was_used": 500, "primitives_built_after_an_earlier_instance_was_appended_onto_a_vertex_only_mesh": 200, "uses_between_builds": 7, "earlier_meshes_reread_after_a_later_call": 1000, "consecutive_calls_with_equal_rows_minus_1_times_columns": 100, "consecutive_identical_calls": 100, "consecutive_calls_of_different_kinds": 100,
+			"call_sequences": 300, "solids_built_through_their_node": 200, "node_entry_points": 3, "out_of_domain_calls_before_a_judged_build": 150, "out_of_domain_kinds": 12, "primitives_built_after_an_earlier_instance_was_used": 500, "primitives_built_after_an_earlier_instance_was_appended_onto_a_vertex_only_mesh": 200, "uses_between_builds": 7, "earlier_meshes_reread_after_a_later_call": 1000, "consecutive_calls_with_equal_rows_minus_1_times_columns": 100, "consecutive_identical_calls": 100, "consecutive_calls_of_different_kinds": 100,
 			"size_decades": 16, "meshes_with_a_dimension_below_2e-6": 200, "meshes_with_a_dimension_above_1e6": 200, "meshes_with_aspect_ratio_of_1e6_or_more": 50},
 		Phases: []run.Phase{
 			{Name: "grid", Cases: func(t string) int {
